@@ -455,15 +455,11 @@ class SymAddr(str):
     """address text of a scriptPubKey whose hash bytes are symbolic: opaque, non-empty (addresses are outside the claim)"""
 
 
-def sb():
-    """sbuidl modules with (a) memoised concrete EC arithmetic and (b) an opaque address string for symbolic scriptPubKeys"""
-    if _LOADED:
-        return _LOADED
-    ps = loader.load("psbt")
-    sc = loader.load("script")
-    hd = loader.load("hd")
-    ecc = loader.load("ecc")
-    P = ecc.S256Point
+def _install_memo(P):
+    """memoise P + k*G and SEC decompression of concrete values on the point class P (the first call runs the real code;
+    later calls rebuild an equal, fresh point)"""
+    if getattr(P, "_c11_memo", False):
+        return
     orig_add, orig_parse_sec = P.__add__, P.parse_sec.__func__
 
     def add(self, other):
@@ -472,12 +468,12 @@ def sb():
             r = _ADD.get(key)
             if r is None:
                 p = orig_add(self, other)
-                r = _ADD[key] = (p.x.num, p.y.num) if p.x is not None else None
-            return P(r[0], r[1]) if r is not None else P(None, None)
+                r = _ADD[key] = (p.x.num, p.y.num) if p.x is not None else ()
+            return P(r[0], r[1]) if r else P(None, None)
         return orig_add(self, other)
 
     def parse_sec(cls, sec_bin):
-        if type(sec_bin) is bytes and cls is not None:
+        if type(sec_bin) is bytes and sec_bin[0] in (2, 3):
             r = _SECP.get(sec_bin)
             if r is None:
                 p = orig_parse_sec(cls, sec_bin)
@@ -487,6 +483,18 @@ def sb():
 
     P.__add__ = add
     P.parse_sec = classmethod(parse_sec)
+    P._c11_memo = True
+
+
+def sb():
+    """sbuidl modules with (a) memoised concrete EC arithmetic and (b) an opaque address string for symbolic scriptPubKeys"""
+    if _LOADED:
+        return _LOADED
+    ps = loader.load("psbt")
+    sc = loader.load("script")
+    hd = loader.load("hd")
+    ecc = loader.load("ecc")
+    _install_memo(ecc.S256Point)
 
     def wrap_addr(fn):
         def enc(raw, *a, **k):
@@ -523,6 +531,9 @@ def run_real(sc, raw, mods=None, native=False):
         from io import BytesIO
         from buidl.psbt import PSBT
         from buidl.hd import HDPublicKey
+        from buidl import ecc as _necc
+        if hasattr(_necc.S256Point, "parse_sec"):
+            _install_memo(_necc.S256Point)
         mk = lambda c: HDPublicKey.raw_parse(BytesIO(c.xpub.raw()))  # noqa
         dct = dict
     else:
@@ -719,7 +730,7 @@ def ob_change(kind, m, n, mode, keys, sym_ops):
 
 def _sym_script_tamper(cos, m, nkeys, rel, tag):
     keys = sorted(c.key(rel) for c in cos)
-    return {"pos": 0, "key": SBytes.sym(f"{tag}.key", 33), "m_op": SI.var(f"{tag}.m_op", 0x50, 0x60), "n_op": SI.var(f"{tag}.n_op", 0x50, 0x60)}, keys
+    return {"pos": 0, "key": SBytes.sym(f"{tag}.key", 33), "m_op": SI.var(f"{tag}.m_op", 0x50, 0x54), "n_op": SI.var(f"{tag}.n_op", 0x50, 0x54)}, keys
 
 
 def _tamper_path(sc, what):
@@ -838,3 +849,75 @@ def replay_summary(w):
         return {"violated": hres == "ok", "observed": f"PSBT with altered {w.get('what')} ({w['vals'].get('tamper')}) was summarised: fee {d['tx_fee_sats']}, "
                                                       f"change {d['change_sats']} to {d['change_addr']}"}
     return {"violated": None, "error": "unknown claim"}
+
+
+# ======================================================================================== registry
+
+def _signature(v):
+    w = v.get("witness") or {}
+    f = w.get("facts") or {}
+    outs = []
+    for o in f.get("outs", []):
+        if o:
+            outs.append((o["spk"], o["attach"], o["keys"], o["spk_commits_to_attached_script"], o["distinct_fingerprints"] < o["named"],
+                         o["script_keys"] == o["n_op"] - 80, o["m_op"], o["commit"]))
+    return repr((v.get("label"), w.get("what"), outs))
+
+
+def _representatives(r, per=2):
+    """every path is explored; of the violation candidates with the same shape (label + facts) only `per` are kept for replay"""
+    seen = {}
+    kept = []
+    for v in r["violations"]:
+        k = _signature(v)
+        seen[k] = seen.get(k, 0) + 1
+        if seen[k] <= per:
+            kept.append(v)
+    r["candidate_shapes"] = {k: n for k, n in list(seen.items())[:20]}
+    total = len(r["violations"])
+    r["violations"] = kept
+    if r.get("sample") is not None:
+        r["sample"]["violation candidates"] = f"{total} found, {len(kept)} representatives replayed"
+    return r
+
+
+_ob_arith, _ob_change, _ob_tamper = ob_arith, ob_change, ob_tamper
+
+
+def ob_arith(**k):  # noqa: F811
+    return _representatives(_ob_arith(**k))
+
+
+def ob_change(**k):  # noqa: F811
+    return _representatives(_ob_change(**k))
+
+
+def ob_tamper(**k):  # noqa: F811
+    return _representatives(_ob_tamper(**k))
+
+
+WALLETS = [("p2sh", 1, 2), ("p2sh", 2, 3), ("p2wsh", 1, 2), ("p2wsh", 2, 3)]
+KEYCASES = ["genuine", "one", "foreign_replace", "foreign_add", "drop"]
+
+
+def obligations(tier):
+    q = tier == "quick"
+    obs = []
+    counts = [1, 2, 3]
+    for kind, m, n in WALLETS:
+        for n_in in counts:
+            for n_out in counts:
+                obs.append(Ob("O1-arith", ob_arith, {"kind": kind, "m": m, "n": n, "n_in": n_in, "n_out": n_out}, replay="summary", budget_s=900))
+    for kind, m, n in WALLETS:
+        for keys in KEYCASES:
+            for mode, sym_ops in (("xpubs", False), ("map", False), ("xpubs", True)) + ((("map", True),) if not q else ()):
+                obs.append(Ob("O2-change", ob_change, {"kind": kind, "m": m, "n": n, "mode": mode, "keys": keys, "sym_ops": sym_ops},
+                              replay="summary", budget_s=900))
+    for kind, m, n in WALLETS:
+        for mode in ("xpubs", "map"):
+            whats = (["prev"] if kind == "p2sh" else ["wutxo"]) + ["in_script", "out_script", "in_fp", "out_fp", "in_path", "out_path"]
+            for what in whats:
+                if mode == "map" and what in ("prev", "wutxo", "in_script", "out_script") and q:
+                    continue  # these alterations are rejected by PSBT.parse before the xpub source matters; both modes in the thorough tier
+                obs.append(Ob("O3-tamper", ob_tamper, {"kind": kind, "m": m, "n": n, "mode": mode, "what": what}, replay="summary", budget_s=900))
+    return obs
